@@ -367,17 +367,21 @@ class H3dyn(Case):
         P2 = [lib.gen_prop(inp, "q%d" % k, d) for k in range(N)]
         base = inp.arr("r", (d, d))
         cbase = inp.arr("C", (D, D))
+        c2base = inp.arr("C2", (D, D))
         rho = laid_out(base, self.layout)
         cop = laid_out(cbase, self.layout)
-        snaps = [Snap("initial_state", rho), Snap("control_operation", cop)]
+        cop2 = laid_out(c2base, self.layout)
+        snaps = [Snap("initial_state", rho), Snap("control_operation", cop), Snap("second control_operation", cop2)]
         control = Control(d)
         control.add_single(1, cop)
-        snaps_after_add = snaps[1].obs()
+        control.add_single(1, cop2)              # stacked on the same step
+        snaps_after_add = snaps[1].obs() + snaps[2].obs()
         dyn = sd.compute_dynamics(lib.FakeSystem(d, P1, P2), initial_state=rho, process_tensor=pt, control=control,
                                   progress_type="silent")
         st = lib.dynamics_states(dyn)
         control2 = Control(d)
         control2.add_single(1, cbase.copy())
+        control2.add_single(1, c2base.copy())
         ref = lib.dynamics_states(sd.compute_dynamics(lib.FakeSystem(d, P1, P2), initial_state=base.copy(), process_tensor=pt,
                                                       control=control2, progress_type="silent"))
         obs = [o for s in snaps for o in s.obs()]
@@ -651,7 +655,7 @@ def cases(tier):
             cs += [H3mps(1, lay), H3mps(3, lay), H3mps(4, lay)]
     cs += [H3tempo("C", alias=True), H3ctrl_alias()]
     # H4
-    cs += [H4("dynamics"), H4("gradient"), H4corr("sd")]
+    cs += [H4("dynamics"), H4("gradient"), H4corr("sd"), H4("dynamics", rank=3, transforms=True)]
     if th:
-        cs += [H4("dynamics", N=3), H4("dynamics", rank=3, transforms=True), H4("gradient", N=3), H4corr("pl")]
+        cs += [H4("dynamics", N=3), H4("dynamics", rank=4, transforms=True), H4("gradient", N=3), H4corr("pl")]
     return cs
